@@ -53,6 +53,23 @@ def validate_scheme(drv, body_sx, sorted_states, modes, stiff, delta):
     return drv.ask(["validate-scheme", dn, dd, modes, list(stiff), len(sorted_states), body_sx])
 
 
+def check_mirror_rl(rep, drv, text, args, body_sx, sorted_states, modes, stiff, delta, ru=False, order="stdp"):
+    """the generated Rush-Larsen function against the verified mirror generator (MirrorRL.gen_rl) for the modes read
+    off the code, statement by statement; and the hypotheses of MirrorRL.mirror_rl_correct on the extended model"""
+    import pipeline
+    dn, dd = delta_q(delta)
+    r = drv.ask(["mirrorrl", "1" if ru else "0", order, dn, dd, modes, list(stiff)])
+    if r.get("status") == "ok" and not r.get("wf"):
+        rep.count("mirror_rl_hypotheses_fail")
+        rep.violation("Rush-Larsen code was generated for a model outside the hypotheses of MirrorRL.mirror_rl_correct "
+                      "(names of the model extended with the <d>_linearized helpers not unique / reserved)",
+                      {"kind": "correspondence", "relation": "wf of the extended model", "theorem": "MirrorRL.mirror_rl_correct",
+                       "text": text, "failing_input": None}, failing_input_found=False)
+        return False
+    rep.count("mirror_rl_hypotheses_hold")
+    return pipeline.check_mirror_function(rep, drv, text, "rl", ru, order, args, body_sx, resp=r)
+
+
 def spec_update(x, f, g, dt, delta, mode_is_euler=False):
     """the update the property prescribes: x + (f/g)(exp(g dt) - 1), Euler when |g| <= delta"""
     if mode_is_euler or g is None:
